@@ -105,7 +105,35 @@ pub enum Prop {
     /// the same idiom with a further non-zero height / max-height after the zero one
     /// (`max-height:0;height:20px;overflow:hidden` | `height:0;max-height:100px;overflow:hidden`)
     ZeroHeightMixed(bool),
+    /// other spellings of the idiom that hide: zero lengths with a unit, `overflow-y` (index into ZERO_UNIT)
+    ZeroHeightUnit(u8),
+    /// near misses of the idiom, which must NOT hide (index into NEAR_MISS)
+    NearMiss(u8),
 }
+
+/// (height property, zero length, overflow property): all hide
+pub const ZERO_UNIT: [(&str, &str, &str); 6] = [
+    ("height", "0px", "overflow"),
+    ("max-height", "0em", "overflow"),
+    ("height", "0.0pt", "overflow"),
+    ("height", "0", "overflow-y"),
+    ("max-height", "0mm", "overflow-y"),
+    ("height", "0.00ex", "overflow"),
+];
+
+/// declaration blocks that resemble the idiom and hide nothing
+pub const NEAR_MISS: [&[(&str, &str)]; 10] = [
+    &[("height", "0"), ("overflow", "visible")],
+    &[("max-height", "0"), ("overflow", "auto")],
+    &[("height", "0px"), ("overflow", "scroll")],
+    &[("height", "20px"), ("overflow", "hidden")],
+    &[("max-height", "0.5em"), ("overflow-y", "hidden")],
+    &[("overflow", "hidden")],
+    &[("max-height", "0")],
+    &[("height", "0"), ("overflow-y", "visible")],
+    &[("height", "10pt"), ("max-height", "1px"), ("overflow", "hidden")],
+    &[("overflow-y", "hidden"), ("overflow", "hidden")],
+];
 
 #[derive(Clone, Debug, Serialize, Deserialize, PartialEq, Eq, Hash)]
 pub struct Decl {
@@ -232,6 +260,11 @@ impl Decl {
                     format!("{}:0{};{}:100px;{}:hidden{}", name("height"), imp, name("max-height"), name("overflow"), imp)
                 }
             }
+            Prop::ZeroHeightUnit(k) => {
+                let (h, z, o) = ZERO_UNIT[*k as usize % ZERO_UNIT.len()];
+                format!("{}:{}{};{}:hidden{}", name(h), z, imp, name(o), imp)
+            }
+            Prop::NearMiss(k) => NEAR_MISS[*k as usize % NEAR_MISS.len()].iter().map(|(p, v)| format!("{}:{}{}", name(p), v, imp)).collect::<Vec<_>>().join(";"),
         }
     }
 }
@@ -489,6 +522,13 @@ pub struct Styling {
     pub author: Sheet,
 }
 
+/// `0` or a zero number with one of the length units html2text knows.
+pub fn is_zero_length(val: &str) -> bool {
+    let v = val.trim();
+    let num = ["in", "cm", "mm", "pt", "pc", "px", "em", "ex"].iter().find_map(|u| v.strip_suffix(u)).unwrap_or(v);
+    !num.is_empty() && num.chars().all(|c| c.is_ascii_digit() || c == '.') && num.parse::<f64>().map(|x| x == 0.0).unwrap_or(false)
+}
+
 /// Parse the inline style strings the generator writes: `prop:value[ !important]` separated by ';'.
 pub fn parse_inline(style: &str) -> Vec<Decl> {
     let mut v = vec![];
@@ -517,11 +557,11 @@ pub fn parse_inline(style: &str) -> Vec<Decl> {
                 }
             }
             "height" | "max-height" => {
-                if val == "0" {
+                if is_zero_length(val) {
                     zero = Some(important);
                 }
             }
-            "overflow" => {
+            "overflow" | "overflow-y" => {
                 if val == "hidden" {
                     hidden = Some(important);
                 }
@@ -573,7 +613,7 @@ pub fn computed(dom: &Arena, n: usize, st: &Styling, use_doc_css: bool) -> Compu
     }
     let col = winner(cands.iter().filter(|c| matches!(c.prop, Prop::Color(_))));
     let bg = winner(cands.iter().filter(|c| matches!(c.prop, Prop::BgColor(_))));
-    let hidden = cands.iter().any(|c| matches!(c.prop, Prop::DisplayNone | Prop::ZeroHeightHidden(_) | Prop::ZeroHeightMixed(_)));
+    let hidden = cands.iter().any(|c| matches!(c.prop, Prop::DisplayNone | Prop::ZeroHeightHidden(_) | Prop::ZeroHeightMixed(_) | Prop::ZeroHeightUnit(_)));
     Computed {
         colour: col.and_then(|c| if let Prop::Color(x) = c.prop { Some(x) } else { None }),
         bg: bg.and_then(|c| if let Prop::BgColor(x) = c.prop { Some(x) } else { None }),
